@@ -104,7 +104,7 @@ Section Prog.
       induction outs as [|e outs IH]; intros G r s i w SV SC Htc He Hw; cbn [xouts].
       - cbn. split; auto. exists SV, SC. split; [|split]; auto with lmmt.
       - cbn [forallb] in Htc. apply andb_true_iff in Htc. destruct Htc as [H1 H2].
-        destruct (tc an G e) as [[| | | |]|] eqn:E1; try discriminate.
+        destruct (tc an G e) as [[| | | | |]|] eqn:E1; try discriminate.
         eapply res_ok_bind; [eapply Hev; eauto|].
         intros [[v k] w1] (SV1 & SC1 & X1 & Y1 & Hw1 & Hv1).
         apply vtyp_num_inv in Hv1. destruct Hv1 as (z & ->). cbn [as_num rbind].
@@ -245,23 +245,23 @@ Section Prog.
   Qed.
 End Prog.
 
-(* ---- THE checker: the strict configuration `mkAnn par ret` ---- *)
-Theorem types_sound : forall par ret p info fuel rows,
-  tc_prog (mkAnn par ret) p = Some info ->
+(* ---- THE checker: the strict configuration `mkAnn par ret sums` ---- *)
+Theorem types_sound : forall par ret sums p info fuel rows,
+  tc_prog (mkAnn par ret sums) p = Some info ->
   Forall (fun row => length row = ti_inputs info) rows ->
   match xrun fuel p rows with
   | Ok outs => Forall (fun o => length o = word_size (ti_dsp_ret info)) outs /\ length outs = length rows
   | OutOfFuel => True
   | Stuck _ => False
   end.
-Proof. intros par ret p info fuel rows. exact (xrun_sound _ (mkAnn_strict par ret) fuel p info rows). Qed.
+Proof. intros par ret sums p info fuel rows. exact (xrun_sound _ (mkAnn_strict par ret sums) fuel p info rows). Qed.
 
-Theorem types_never_stuck : forall par ret p info fuel rows code,
-  tc_prog (mkAnn par ret) p = Some info -> Forall (fun row => length row = ti_inputs info) rows -> xrun fuel p rows <> Stuck code.
-Proof. intros par ret. exact (xrun_never_stuck _ (mkAnn_strict par ret)). Qed.
+Theorem types_never_stuck : forall par ret sums p info fuel rows code,
+  tc_prog (mkAnn par ret sums) p = Some info -> Forall (fun row => length row = ti_inputs info) rows -> xrun fuel p rows <> Stuck code.
+Proof. intros par ret sums. exact (xrun_never_stuck _ (mkAnn_strict par ret sums)). Qed.
 
-Theorem types_sound_reachable : forall par ret fuel p info rows1 genv ft wi outs s w,
-  tc_prog (mkAnn par ret) p = Some info -> Forall (fun row => length row = ti_inputs info) rows1 ->
+Theorem types_sound_reachable : forall par ret sums fuel p info rows1 genv ft wi outs s w,
+  tc_prog (mkAnn par ret sums) p = Some info -> Forall (fun row => length row = ti_inputs info) rows1 ->
   xinit fuel (x_globals p) [] [] w0 = Ok (genv, ft, wi) ->
   xsamples fuel p genv ft 0%Z rows1 st0 wi = Ok (outs, s, w) ->
   forall fuel' t0 s' rows2, Forall (fun row => length row = ti_inputs info) rows2 ->
@@ -271,21 +271,21 @@ Theorem types_sound_reachable : forall par ret fuel p info rows1 genv ft wi outs
   | Stuck _ => False
   end.
 Proof.
-  intros par ret fuel p info rows1 genv ft wi outs s w H1 H2 H3 H4 fuel' t0 s' rows2 H5.
-  pose proof (reachable_sound _ (mkAnn_strict par ret) fuel p info rows1 genv ft wi outs s w H1 H2 H3 H4 fuel' t0 s' rows2 H5) as H.
+  intros par ret sums fuel p info rows1 genv ft wi outs s w H1 H2 H3 H4 fuel' t0 s' rows2 H5.
+  pose proof (reachable_sound _ (mkAnn_strict par ret sums) fuel p info rows1 genv ft wi outs s w H1 H2 H3 H4 fuel' t0 s' rows2 H5) as H.
   destruct (xsamples fuel' p genv ft t0 rows2 s' w) as [[[o2 s2] w2]| |c]; exact H.
 Qed.
 
-Theorem types_preservation : forall par ret ft sigs now fuel selfv r e s w G t SV SC,
-  let an := mkAnn par ret in
+Theorem types_preservation : forall par ret sums ft sigs now fuel selfv r e s w G t SV SC,
+  let an := mkAnn par ret sums in
   tc an G e = Some t -> env_ok SV sigs G r -> wok an ft sigs SV SC w ->
   match xeval fuel ft now selfv r e s w with
   | Ok (v, _, w') => exists SV' SC', ext SV SV' /\ ext SC SC' /\ wok an ft sigs SV' SC' w' /\ vtyp SC' t v
   | OutOfFuel => True
   | Stuck _ => False
   end.
-Proof. intros par ret ft sigs. exact (xeval_preservation _ (mkAnn_strict par ret) ft sigs). Qed.
+Proof. intros par ret sums ft sigs. exact (xeval_preservation _ (mkAnn_strict par ret sums) ft sigs). Qed.
 
 (* the lenient configuration accepts at least what its comparisons are reflexive on; in particular it is NOT strict *)
-Lemma lenient_not_strict : ~ cfg_strict (mkLenient [] []).
+Lemma lenient_not_strict : ~ cfg_strict (mkLenient [] [] []).
 Proof. intros [H _]. specialize (H (TTup [TNum]) (TTup [TUnit]) eq_refl). discriminate. Qed.
